@@ -353,12 +353,12 @@ fn main() {
             let mut crashed = 0;
             for i in 0..runs {
                 let sc = random_scenario(&mut rng);
-                let o = std::process::Command::new(&exe)
-                    .args(["child", "--ninst", &sc.ninst.to_string(), "--nemit", &sc.nemit.max(1).to_string(), "--per", &sc.per.to_string()])
-                    .env("VERIF_SEED", (seed * 1000 + i as u64).to_string())
-                    .output()
-                    .unwrap();
-                let text = String::from_utf8_lossy(&o.stdout);
+                let (text, status) = vh::run_child(
+                    std::process::Command::new(&exe)
+                        .args(["child", "--ninst", &sc.ninst.to_string(), "--nemit", &sc.nemit.max(1).to_string(), "--per", &sc.per.to_string()])
+                        .env("VERIF_SEED", (seed * 1000 + i as u64).to_string()),
+                    30,
+                );
                 let mut lines = 0;
                 for line in text.lines() {
                     if let Ok(v) = serde_json::from_str::<Value>(line) {
@@ -366,10 +366,10 @@ fn main() {
                         lines += 1;
                     }
                 }
-                if !o.status.success() || lines == 0 {
+                if status != Some(true) || lines == 0 {
                     crashed += 1;
                     w.put(&json!({"p": 0, "ev": "reset", "a": [sc.ninst, sc.nemit.max(1), sc.per]}));
-                    w.put(&json!({"p": 0, "ev": "crash", "a": [], "status": format!("{:?}", o.status)}));
+                    w.put(&json!({"p": 0, "ev": if status.is_none() { "hang" } else { "crash" }, "a": []}));
                 }
             }
             summary["runs"] = json!(runs);
